@@ -62,29 +62,40 @@ def kvOf (toks : List String) (key : String) : Option Int :=
   | some t => (t.drop (key.length + 1)).toString.toInt?
   | none => none
 
+/-- the numbers of one observation line (indices: -1 = empty stack) -/
+structure Obs where
+  ticks : Int
+  maxcsp : Int
+  maxsp : Int
+  csp : Int
+  sp : Int
+  maxtouch : Int := -1     -- highest value-stack slot at or above StackSize that was written (-1: none)
+  deriving Repr
+
+/-- judge the numbers of one evaluation (the clause-level core of the oracle: `model_satisfies_spec` is about this
+    function applied to the numbers of a model run, the line judge applies it to the parsed `obs` line) -/
+def judgeNums (lim : Limits) (o : Obs) : List String :=
+  (if o.ticks > (if lim.cost > 0 then lim.cost else 0) + (handlerAllowance : Int) * (lim.catchDepth + 2) then
+      (if lim.cost ≤ 0 then [s!"eval-exceeded nonpositive-budget ticks={o.ticks} budget={lim.cost}"]
+       else if lim.hasSafe then [s!"eval-exceeded through-safe-apply ticks={o.ticks} budget={lim.cost}"]
+       else [s!"eval-exceeded ticks={o.ticks} budget={lim.cost}"])
+    else []) ++
+  (if lim.depth > 0 ∧ o.maxcsp > lim.depth - 1 then
+      [s!"depth-exceeded maxcsp={o.maxcsp} depth={lim.depth}"] else []) ++
+  (if lim.stack > 0 ∧ o.maxsp > lim.stack - 1 then
+      [s!"stack-exceeded maxsp={o.maxsp} stack={lim.stack}"] else []) ++
+  -- slots at or above the lowered StackSize that were written at any time (also between two instruction fetches)
+  (if lim.stack > 0 ∧ o.maxtouch > lim.stack - 1 then
+      [s!"stack-exceeded maxtouch={o.maxtouch} stack={lim.stack}"] else []) ++
+  (if o.csp ≠ -1 ∨ o.sp ≠ -1 then
+      (if lim.hasSafe ∧ o.csp = -1 then [s!"not-unwound through-safe-apply sp={o.sp}"]
+       else [s!"not-unwound csp={o.csp} sp={o.sp}"]) else [])
+
 /-- judge the observation line of one evaluation -/
 def judgeObs (lim : Limits) (toks : List String) : List String :=
   let get (k : String) : Int := (kvOf toks k).getD 0
-  let ticks := get "ticks"
-  let allowance : Int := handlerAllowance * (lim.catchDepth + 2)
-  let budget : Int := if lim.cost > 0 then lim.cost else 0
-  let v1 :=
-    if ticks > budget + allowance then
-      if lim.cost ≤ 0 then [s!"eval-exceeded nonpositive-budget ticks={ticks} budget={lim.cost}"]
-      else if lim.hasSafe then [s!"eval-exceeded through-safe-apply ticks={ticks} budget={lim.cost}"]
-      else [s!"eval-exceeded ticks={ticks} budget={lim.cost}"]
-    else []
-  let v2 := if lim.depth > 0 ∧ get "maxcsp" > lim.depth - 1 then
-      [s!"depth-exceeded maxcsp={get "maxcsp"} depth={lim.depth}"] else []
-  let v3 := if lim.stack > 0 ∧ get "maxsp" > lim.stack - 1 then
-      [s!"stack-exceeded maxsp={get "maxsp"} stack={lim.stack}"] else []
-  -- slots at or above the lowered StackSize that were written at any time (also between two instruction fetches)
-  let v3 := v3 ++ (if lim.stack > 0 ∧ get "maxtouch" > lim.stack - 1 then
-      [s!"stack-exceeded maxtouch={get "maxtouch"} stack={lim.stack}"] else [])
-  let v4 := if get "csp" != -1 ∨ get "sp" != -1 then
-      (if lim.hasSafe ∧ get "csp" == -1 then [s!"not-unwound through-safe-apply sp={get "sp"}"]
-       else [s!"not-unwound csp={get "csp"} sp={get "sp"}"]) else []
-  v1 ++ v2 ++ v3 ++ v4
+  judgeNums lim { ticks := get "ticks", maxcsp := get "maxcsp", maxsp := get "maxsp", csp := get "csp", sp := get "sp",
+                  maxtouch := (kvOf toks "maxtouch").getD (-1) }
 
 /-- which limit bounds the result of a constructor -/
 def limitOf (lim : Limits) (ctor : String) : Int :=
